@@ -19,6 +19,8 @@ def run(ctx):
             ops_array.case_field_edits(ctx, s, malformed=(i % 3 == 0))
             ops_array.case_take(ctx, s)
             ops_array.case_getitem(ctx, s)
+            if i % 6 == 0:
+                ops_entry.case_same_names_other_units(ctx)
         ops_array.history_same_object(ctx, ctx.budget(20, 200))
         ops_entry.failed_assign_leaves_object(ctx, ctx.budget(60, 600))
     ops_entry.report_births(ctx)
